@@ -208,10 +208,10 @@ def _ra_case(arg):
         flat = [v for row in a_r for v in row]
         for vname, lo, hi in [("plain", False, False), ("inf", True, True), ("near-ties", False, False),
                               ("huge", False, False), ("uint8", False, False), ("int64-min", False, False),
-                              ("bool", False, False)]:
+                              ("bool", False, False), ("int64-big", False, False)]:
             if vname != "plain" and not any(v != ab.NAN and v != 0 for v in flat):
                 continue
-            if vname in ("uint8", "int64-min", "bool"):
+            if vname in ("uint8", "int64-min", "bool", "int64-big"):
                 # integer-like dtypes (no NaN): the same order on unsigned / extreme signed / Boolean values,
                 # for which "the minimum is the maximum of the negation" does not hold
                 if any(v == ab.NAN for v in flat):
@@ -223,6 +223,9 @@ def _ra_case(arg):
                     arr = np.array([v == dv[-1] and len(dv) > 1 for v in flat], dtype=bool)
                 elif vname == "uint8":
                     arr = np.array([dv.index(v) * 7 for v in flat], dtype=np.uint8)
+                elif vname == "int64-big":
+                    # neighbouring 64-bit integers beyond 2^53 (distinct as integers, equal once converted to float)
+                    arr = np.array([2 ** 53 + dv.index(v) for v in flat], dtype=np.int64)
                 else:
                     arr = np.array([np.iinfo(np.int64).min if v == dv[0] else dv.index(v) for v in flat], dtype=np.int64)
                 arr = arr.reshape(len(a_r), len(a_r[0]))
@@ -262,7 +265,13 @@ def _ra_case(arg):
                 # seeds used (<= 4 ties per slice product)
                 if case.get("fair", True):
                     events.append({"ev": "AllReached"})
-            ranks = ab.signed_ranks(np.asarray(arr, dtype=float))[0]
+            if np.asarray(arr).dtype.kind in "iu":
+                # integers are ranked as integers (exact also beyond 2^53, where neighbours collide as floats)
+                iv = [int(v) for v in np.asarray(arr).ravel()]
+                neg, pos = sorted({v for v in iv if v < 0}), sorted({v for v in iv if v > 0})
+                ranks = [0 if v == 0 else (neg.index(v) - len(neg) if v < 0 else pos.index(v) + 1) for v in iv]
+            else:
+                ranks = ab.signed_ranks(np.asarray(arr, dtype=float))[0]
             a_abs = [ranks[i * len(a_r[0]):(i + 1) * len(a_r[0])] for i in range(len(a_r))]
             traces.append({"id": "%s/%s/axis=%s/%s" % (fn.__name__, a_r, axis, vname), "a": a_abs,
                            "ndim": ndim, "axis": axis, "isMax": is_max, "events": events,
